@@ -219,6 +219,55 @@ theorem C16_reason (old new : List (Val × Val)) (ho : KeysDistinct old) (hn : K
         · cases h
     · cases h
 
+/-- C16, rebuild reason, the remaining outcomes of `diffEnv` (after the repair of D25): a target without a record
+has never been run; equal encodings mean up to date, and nothing else does; when the encodings differ but the
+two environments compare equal — no part differs by `==`, yet the function can tell them apart: `1` and `1.0`,
+`0.0` and `-0.0`, one shared list and two equal lists — or cannot be compared within the depth limit, the
+reason is the generic "environment changed" with no diff; and a reason naming parts always names at least one. -/
+theorem C16_reason_cases (old new : Val) :
+    diffEnv none false new = .neverRun ∧
+    diffEnv (some old) true new = .same ∧
+    (∀ se, diffEnv (some old) se new = .same → se = true) ∧
+    (equalDepth envDepth old new = .ok true → diffEnv (some old) false new = .changedOpaque) ∧
+    ((∃ e, equalDepth envDepth old new = .error e) → diffEnv (some old) false new = .changedOpaque) ∧
+    (∀ r d, diffEnv (some old) false new = .changed r d →
+      equalDepth envDepth old new = .ok false ∧
+      ∃ o n edits, d = .mapping o n edits ∧
+        (functionEnvKeys.filter fun k => hasEdit (.str k.toUTF8.toList) edits) ≠ []) := by
+  refine ⟨rfl, rfl, ?_, ?_, ?_, ?_⟩
+  · intro se h
+    cases se with
+    | true => rfl
+    | false =>
+      simp only [diffEnv, Bool.false_eq_true, ↓reduceIte] at h
+      repeat' split at h
+      all_goals first | cases h | skip
+  · intro h; simp [diffEnv, h]
+  · rintro ⟨e, h⟩; simp [diffEnv, h]
+  · intro r d h
+    simp only [diffEnv, Bool.false_eq_true, ↓reduceIte] at h
+    split at h
+    · cases h
+    · cases h
+    · rename_i heq
+      refine ⟨heq, ?_⟩
+      split at h
+      · split at h
+        · cases h
+        · cases h
+        · rename_i o n edits _
+          split at h
+          · rename_i rs hj
+            simp only [EnvResult.changed.injEq] at h
+            refine ⟨o, n, edits, h.2.symm, ?_⟩
+            intro hnil
+            rw [hnil] at hj
+            simp [joinReasons] at hj
+          · cases h
+        · cases h
+      · cases h
+      · cases h
+
 /-! ### non-vacuity: concrete instances (evaluated by the kernel) -/
 
 def vs (s : String) : Val := .str s.toUTF8.toList
